@@ -91,6 +91,7 @@ def run(ctx):
     ctx.coverage["input_distribution"]["readback_relations"] = n_rb
     ctx.coverage["rule"] += "; plus get_at(set_at(...)) read-back on collision-free set_at calls"
     run_empty(ctx, cases)
+    run_join(ctx)
 
 
 def _empty_variant(c):
@@ -143,6 +144,38 @@ def run_empty(ctx, cases):
     ctx.coverage["evaluations"] += n
     ctx.coverage["input_distribution"]["updates_without_iterations"] = n
     ctx.coverage["rule"] += "; plus the same updates with an empty coordinate axis (no element addressed)"
+
+
+def _real_join(lists):
+    import einx._src.namedtensor.stage3 as s3
+    from einx._src.adapter.decomposednamedtensor_from_classical import _join_exprs
+    try:
+        r = _join_exprs([s3.List.create([s3.Axis(n, v) for n, v in l]) for l in lists])
+        return [a.name for a in r.nodes() if isinstance(a, s3.Axis)]
+    except Exception as e:  # noqa: BLE001
+        return "raises " + type(e).__name__
+
+
+def run_join(ctx):
+    """the regenerated _join_exprs kernel (Gen/GenJoin.v, about which Props/C14.v proves termination and 'every axis exactly once')
+    against the function itself: the same order of axes on random lists of expressions"""
+    rng = ctx.rng
+    items = []
+    for _ in range(300 if ctx.tier == "quick" else 20000):
+        names = "abcdefg"[: rng.randint(1, 7)]
+        sizes = {n: rng.choice([1, 2, 3, 3, 4]) for n in names}
+        items.append([[(n, sizes[n]) for n in rng.sample(names, rng.randint(0, len(names)))] for _ in range(rng.randint(1, 4))])
+    real = common.pmap(_real_join, items)
+    model = ctx.model.batch([common.sx(["join_exprs", [[n for n, v in l if v != 1] for l in lists]]) for lists in items])
+    bad = 0
+    for lists, r, m in zip(items, real, model):
+        if m != r and not (isinstance(m, list) and isinstance(r, list) and [str(x) for x in m] == r):
+            bad += 1
+            if bad <= 3:
+                ctx.tie_breaks.append({"correspondence": "Gen/GenJoin.v gen_join vs _join_exprs", "expressions": lists, "model": m, "implementation": r})
+    ctx.coverage["evaluations"] += len(items)
+    ctx.coverage["input_distribution"]["joined_expression_orders"] = len(items)
+    ctx.coverage["rule"] += "; plus the order of the joined intermediate expression (regenerated kernel vs _join_exprs)"
 
 
 def replay(ctx, path):
